@@ -305,36 +305,31 @@ def case_module(idx, ev):
 
 
 def run_shard(ctx, name, mods):
-    """mods: [(idx, lines, goals)].  Compiles; a failing lemma is recorded and replaced by a comment,
-    then the file is compiled again (at most 6 times).  -> {(idx, lemma): error text}"""
+    """mods: [(idx, lines, goals)].  Compiles all modules in one file.  coqc stops at the first lemma it
+    cannot prove: that lemma is recorded for its case (one failing goal condemns the case; the mpmath
+    evaluation then lists every failing clause), everything before it is proved, and the modules after
+    that case are compiled again.  -> {(idx, lemma): error text}"""
     failed = {}
-    lines, owner = HEADER.splitlines(), [None] * len(HEADER.splitlines())
-    for idx, L, goals in mods:
-        for ln in L:
-            m = re.match(r"Lemma (\w+) ", ln)
-            owner.append((idx, m.group(1)) if m else None)
-            lines.append(ln)
-    for _ in range(6):
+    todo = list(mods)
+    rounds = 0
+    while todo:
+        rounds += 1
+        lines, owner = HEADER.splitlines(), [None] * len(HEADER.splitlines())
+        for pos, (idx, L, goals) in enumerate(todo):
+            for ln in L:
+                m = re.match(r"Lemma (\w+) ", ln)
+                owner.append((pos, idx, m.group(1) if m else None))
+                lines.append(ln)
         ok, out, err = ctx.coq_script("\n".join(lines) + "\n", name=name, timeout=1200)
         if ok:
-            return failed
+            break
         m = re.search(r"line (\d+), characters", err)
-        if not m or owner[int(m.group(1)) - 1] is None:
+        if not m or int(m.group(1)) > len(owner) or owner[int(m.group(1)) - 1] is None:
             failed[(None, name)] = err[-1500:]
-            return failed
-        k = int(m.group(1)) - 1
-        failed[owner[k]] = err[-600:]
-        if owner[k][1][0] in "lz":
-            # a side condition failed: everything of this state depends on it -> drop the module's later lemmas
-            idx = owner[k][0]
-            for j in range(k, len(lines)):
-                if owner[j] and owner[j][0] == idx:
-                    if j != k:
-                        failed.setdefault(owner[j], "depends on failed side condition")
-                    lines[j] = "(* removed *)"
-        else:
-            lines[k] = "(* failed *)"
-    failed[(None, name)] = "more than 5 failing goals in one shard"
+            break
+        pos, idx, lemma = owner[int(m.group(1)) - 1]
+        failed[(idx, lemma or "definitions")] = err[-600:]
+        todo = todo[pos + 1:]
     return failed
 
 
@@ -429,6 +424,8 @@ def run(ctx):
     for o in outs:
         failed.update(o)
     ngoals = sum(len(g) for _, _, g in mods)
+    bad_cases = {idx for (idx, _) in failed}
+    nproved = 0 if None in bad_cases else sum(len(g) for i, _, g in mods if i not in bad_cases)
 
     for (idx, lemma), err in sorted(failed.items(), key=str):
         if idx is None:
@@ -491,9 +488,9 @@ def run(ctx):
                 "EntropyRegularizedPolicyIteration.plan_on; one interval-proved goal per number (q, pi: states x actions; v, Z>0: states) of every "
                 "CONVERGED result; distinct = structural hash of the case; non-trivial = converged (all have >= 2 states)",
         "samples": sample,
-        "cases": len(cases), "goals": ngoals, "goals_failed": len(failed),
+        "cases": len(cases), "goals": ngoals, "goals_proved": nproved, "cases_with_unproved_goal": len(bad_cases),
         "rate_checks": nrate, "rate_worst_distance_over_bound": worst,
         "ladders_complete": full, "ladders_monotone": mono,
         "weights_seen": by_lam, "input_features": stats,
-        "extra_obligations": ngoals, "extra_discharged": ngoals - len(failed),
+        "extra_obligations": ngoals, "extra_discharged": nproved,
     })
